@@ -4,11 +4,16 @@ import (
 	"bytes"
 	"encoding/json"
 	"fmt"
+	"os"
+	"path/filepath"
 	"sort"
+	"strings"
 
 	pb "github.com/ipfs/boxo/ipld/unixfs/pb"
 	"github.com/ipfs/go-cid"
+	"github.com/ipfs/go-unixfsnode/data/builder"
 	quickbuilder "github.com/ipfs/go-unixfsnode/data/builder/quick"
+	"github.com/ipld/go-ipld-prime"
 	cidlink "github.com/ipld/go-ipld-prime/linking/cid"
 
 	"verif/harness/core"
@@ -114,7 +119,29 @@ func (c c11Case) String() string {
 	if c.Kind == "quick" {
 		return fmt.Sprintf("quick L=%d", c.File.L)
 	}
+	if c.Kind == "symlink" {
+		return fmt.Sprintf("symlink target of %d bytes", c.File.L)
+	}
+	if c.Kind == "recursive" {
+		if t := c11FsTrees(); c.Fanout < len(t) {
+			return "recursive import of " + t[c.Fanout].String()
+		}
+	}
 	return fmt.Sprintf("%s F=%d n=%d %q", c.Kind, c.Fanout, len(c.Names), trimNames(c.Names))
+}
+
+// c11FsTrees: on-disk fixtures for the recursive importer (Fanout indexes it).
+func c11FsTrees() []fsSpec {
+	d := func(ch ...fsSpec) fsSpec { return fsSpec{Kind: "D", Children: ch} }
+	k := func(kind string) fsSpec { return fsSpec{Kind: kind} }
+	return []fsSpec{
+		k("F"), k("E"), k("Lr"), k("LL"), k("LX"), k("M"), d(),
+		d(k("F"), k("E"), k("Lr")),
+		d(k("LL"), k("F"), k("LX"), d(k("LL"), k("E"))),
+		d(d(d(k("F"), k("La")), k("Ld")), k("M")),
+		{Kind: "D", NGen: 1111, NameLen: 200, Children: []fsSpec{d(k("F"), k("LL")), k("M")}},
+		{Kind: "D", NGen: 1030, NameLen: 255, LongNames: true, Children: []fsSpec{k("F"), k("LL")}},
+	}
 }
 
 func trimNames(n []string) []string {
@@ -175,6 +202,38 @@ func (c c11Case) run(viol func(sig, detail string), r *core.Run) {
 			} else {
 				root, sz, err = gen.OursDir(s, es)
 			}
+		}
+	case "symlink":
+		// a symlink node whose target has File.L bytes (the dag-pb length
+		// prefixes grow at 124 / 16380 bytes)
+		s = store.New()
+		var l ipld.Link
+		l, sz, err = builder.BuildUnixFSSymlink(strings.Repeat("t", c.File.L), s.LinkSystem())
+		if err == nil {
+			root = l.(cidlink.Link).Cid
+		}
+	case "recursive":
+		// an on-disk tree (C18's fixture machinery) imported recursively
+		trees := c11FsTrees()
+		if c.Fanout >= len(trees) {
+			err = fmt.Errorf("no such fixture")
+			break
+		}
+		var dir string
+		dir, err = os.MkdirTemp(scratchBase(), "verif-c11-")
+		if err != nil {
+			break
+		}
+		defer os.RemoveAll(dir)
+		id := 0
+		if err = trees[c.Fanout].materialise(filepath.Join(dir, "root"), &id); err != nil {
+			break
+		}
+		s = store.New()
+		var l ipld.Link
+		l, sz, err = builder.BuildUnixFSRecursive(filepath.Join(dir, "root"), s.LinkSystem())
+		if err == nil {
+			root = l.(cidlink.Link).Cid
 		}
 	case "quick":
 		// the quick builder: files of the lengths in File.L (and half of it),
@@ -267,6 +326,12 @@ func runC11(r *core.Run) {
 			cases = append(cases, c11Case{Kind: "dir-of-files", Names: names})
 			cases = append(cases, c11Case{Kind: "dir-of-files", Fanout: 8, Names: names})
 		}
+	}
+	for _, L := range []int{1, 2, 100, 122, 123, 124, 125, 126, 127, 128, 129, 300, 4000, 16375, 16376, 16377, 16378, 16379, 16380, 16381, 16382, 16383, 16384, 16390, 70000} {
+		cases = append(cases, c11Case{Kind: "symlink", File: fileCase{L: L}})
+	}
+	for i := range c11FsTrees() {
+		cases = append(cases, c11Case{Kind: "recursive", Fanout: i})
 	}
 	for _, L := range []int{0, 1, 2, 262144, 262145, 262146, 524288, 524290, 800000} {
 		cases = append(cases, c11Case{Kind: "quick", File: fileCase{L: L}})
